@@ -92,6 +92,10 @@ def _flag_live(ck: Check, prog: Program, roles) -> None:
     ck.require('FLAG-LIVE', 'constructor options', n, 10)
 
 
+DETACHING = {'asyncio.ensure_future', 'asyncio.create_task', 'asyncio.get_event_loop.create_task', 'asyncio.get_running_loop.create_task',
+             'asyncio.run_coroutine_threadsafe', 'asyncio.tasks.ensure_future', 'asyncio.tasks.create_task'}
+
+
 def _seq_mode(ck: Check, prog: Program, r) -> None:
     f = r.dispatch
     ty = types_of(prog)
@@ -153,6 +157,20 @@ def _seq_mode(ck: Check, prog: Program, r) -> None:
                 msgs.append(f'line {n.line}: `{norm(call)}` is not awaited before the next element starts (coroutines collected, not run in order)')
         if seq_calls and not msgs:
             ok = True
+    # an element is finished when its handler returns: nothing of its work (method, middlewares, error handlers) may be handed to a
+    # task that outlives the handler call — it would run interleaved with the next element, or after dispatch has answered
+    for g in r.chain:
+        if g is f:
+            continue
+        sg = FuncScope(g, ty)
+        for x in walk_own(g.node):
+            if not isinstance(x, ast.Call):
+                continue
+            for k, o in ty.callees(x, sg):
+                if k == 'ext' and str(o) in DETACHING:
+                    msgs.append(f'{short(g.qualname)} line {x.lineno}: `{norm(x)[:70]}` schedules part of an element\'s work as a separate task: the '
+                                f'element is reported done while that work is still pending, so with concurrent batch execution switched off '
+                                f'two elements are in flight at once (and the order of effects is not the request order)')
     ck.ob('SEQ-MODE', 'with concurrent_batch off the elements are awaited one by one, in request order, with no task combinator', ok and not msgs,
           sample={'flag': flag_attr, 'tests_of_the_flag': len(conds) + len(ifexps)})
     for m in msgs:
@@ -160,6 +178,10 @@ def _seq_mode(ck: Check, prog: Program, r) -> None:
 
 
 MUTANTS = [
+    dict(name='error-handlers-of-notifications-detached', file='pjrpc/server/dispatcher.py', nth=1,
+         find='        if request.id is None:\n            return UNSET\n\n        return self._response_class(id=request.id, error=error)',
+         replace='        if request.id is None:\n            asyncio.ensure_future(self._noop(request))\n            return UNSET\n\n'
+                 '        return self._response_class(id=request.id, error=error)', expect='SEQ-MODE'),
     dict(name='current-request-on-self', file='pjrpc/server/dispatcher.py',
          find='        result = await self._handle_rpc_method(request.method, request.params, context)\n',
          replace='        self._current = request\n        result = await self._handle_rpc_method(self._current.method, self._current.params, context)\n',
